@@ -8,7 +8,11 @@ def _norm(v):
     return v
 
 
-def snap(obj, order=False):
+MODEL_STATE_ATTRS = ("_name", "_mapping", "_reverse_mapping", "_next_label", "_degree", "_variables", "_num_binary_variables",
+                     "_ancilla", "_constraints")
+
+
+def snap(obj, order=False, full=False):
     """Deep, hashable, order-insensitive snapshot of a model / dict / container argument.
 
     Two snapshots are equal iff the objects are equal as far as any library function can observe
@@ -16,16 +20,19 @@ def snap(obj, order=False):
     deliberately not part of it unless order=True).
     """
     if isinstance(obj, dict):
-        items = [(snap(k), snap(v)) for k, v in obj.items()]
+        items = [(snap(k), snap(v, full=full)) for k, v in obj.items()]
         if not order:
             items = sorted(items, key=repr)
         d = getattr(obj, "__dict__", None)
         attrs = ()
         if d:
-            attrs = tuple(sorted(((k, snap(v)) for k, v in d.items()), key=repr))
+            # the bookkeeping a model carries next to its terms.  Attributes outside this list (for instance a private memo
+            # a future version might add) are not part of the observable state and are ignored, so that a correct cache is
+            # never reported as "the model was mutated"; a stale one shows up through wrong results instead.
+            attrs = tuple(sorted(((k, snap(v, full=full)) for k, v in d.items() if full or k in MODEL_STATE_ATTRS), key=repr))
         return (type(obj).__name__, tuple(items), attrs)
     if isinstance(obj, (list, tuple)):
-        return (type(obj).__name__,) + tuple(snap(x) for x in obj)
+        return (type(obj).__name__,) + tuple(snap(x, full=full) for x in obj)
     if isinstance(obj, (set, frozenset)):
         return ("set",) + tuple(sorted((snap(x) for x in obj), key=repr))
     if isinstance(obj, (int, float, str, bool, type(None))):
